@@ -227,6 +227,20 @@ type argSet struct {
 // optional variadic element type, in plain or spread shape; delta -1/+1 asks for too few /
 // too many arguments.
 func genArgs(t *rapid.T, fixedT []reflect.Type, varElem reflect.Type, hasSpread bool, delta int) argSet {
+	as := genArgsPlain(t, fixedT, varElem, hasSpread, delta)
+	// hops: ordinary arguments sometimes, the spread operand half of the time
+	for i := range as.Args {
+		if rapid.IntRange(0, 4).Draw(t, "arghop") == 0 {
+			as.Args[i].Hop = rapid.SampledFrom(hopNames).Draw(t, "hop")
+		}
+	}
+	if hasSpread && rapid.Bool().Draw(t, "spreadhop") {
+		as.Spread.Hop = rapid.SampledFrom(hopNames).Draw(t, "hop")
+	}
+	return as
+}
+
+func genArgsPlain(t *rapid.T, fixedT []reflect.Type, varElem reflect.Type, hasSpread bool, delta int) argSet {
 	as := argSet{Args: []SV{}}
 	nFixed := len(fixedT)
 	switch {
